@@ -27,8 +27,8 @@ def prf(secret, label, seed, n):
     return out[:n]
 
 
-def record(rtype, payload):
-    return bytes([rtype]) + VERSION + struct.pack('>H', len(payload)) + payload
+def record(rtype, payload, version=VERSION):
+    return bytes([rtype]) + version + struct.pack('>H', len(payload)) + payload
 
 
 def certificate_msg(chain_ders):
@@ -37,6 +37,8 @@ def certificate_msg(chain_ders):
 
 
 class Client(object):
+    version = VERSION
+
     def __init__(self, sock, client_hello_record, enc_pub, rng):
         self.sock = sock
         self.ch = client_hello_record
@@ -64,20 +66,24 @@ class Client(object):
             # one handshake message per record in this library
             self.server_msgs.append(body[0])
             self.hs += body
+            self.on_server_message(body)
             if body[0] == 2:
                 self.server_random = body[4 + 2:4 + 2 + 32]
             if body[0] == 14:
                 return True
 
+    def on_server_message(self, body):
+        pass
+
     def certificate_requested(self):
         return 13 in self.server_msgs
 
     def send_plain(self, msg):
-        self.sock.sendall(record(22, msg))
+        self.sock.sendall(record(22, msg, self.version))
         self.hs += msg
 
     def client_key_exchange(self, pms=None):
-        self.pms = pms if pms is not None else VERSION + self.rng.randbytes(46)
+        self.pms = pms if pms is not None else self.version + self.rng.randbytes(46)
         ct = None
         while ct is None:
             ct = R.encrypt_with_k(self.enc_pub, self.pms, self.rng.randrange(1, R.N))
@@ -100,18 +106,50 @@ class Client(object):
         self.c_mac, self.s_mac, self.c_key, self.s_key = kb[:32], kb[32:64], kb[64:80], kb[80:96]
 
     def change_cipher_spec(self):
-        self.sock.sendall(record(20, b'\x01'))
+        self.sock.sendall(record(20, b'\x01', self.version))
 
     def finished(self):
         self.derive()
         vd = prf(self.master, b'client finished', H(self.hs), 12)
         msg = hs_msg(20, vd)
-        rec = RT.cbc_protect(self.c_mac, self.c_key, self.cseq.to_bytes(8, 'big'), 22, VERSION, msg, self.rng.randbytes(16))
+        rec = RT.cbc_protect(self.c_mac, self.c_key, self.cseq.to_bytes(8, 'big'), 22, self.version, msg, self.rng.randbytes(16))
         self.cseq += 1
         self.sock.sendall(rec)
         self.hs += msg
 
     def app_data(self, data):
-        rec = RT.cbc_protect(self.c_mac, self.c_key, self.cseq.to_bytes(8, 'big'), 23, VERSION, data, self.rng.randbytes(16))
+        rec = RT.cbc_protect(self.c_mac, self.c_key, self.cseq.to_bytes(8, 'big'), 23, self.version, data, self.rng.randbytes(16))
         self.cseq += 1
         self.sock.sendall(rec)
+
+
+class Client12(Client):
+    """TLS 1.2 with ECDHE_SM4_CBC_SM3 the way this library speaks it: the pre-master secret is the x coordinate of the ECDH
+    point, CertificateVerify signs the concatenation of the eight handshake messages before it (default SM2 ID)."""
+    version = b'\x03\x03'
+
+    def __init__(self, sock, client_hello_record, rng):
+        Client.__init__(self, sock, client_hello_record, None, rng)
+        self.server_point = None
+
+    def on_server_message(self, body):
+        if body[0] == 12:           # ServerKeyExchange: curve_type(1) named_curve(2) len(1) point(65) sig_alg(2) sig
+            pt = body[4 + 4:4 + 4 + 65]
+            if body[4 + 3] == 65 and pt[0] == 4:
+                self.server_point = (int.from_bytes(pt[1:33], 'big'), int.from_bytes(pt[33:65], 'big'))
+
+    def client_key_exchange(self, pms=None):
+        d = self.rng.randrange(1, R.N - 1)
+        shared = R.mul(d, self.server_point)
+        self.pms = R.i2b(shared[0])
+        return hs_msg(16, b'\x41' + R.pt_uncompressed(R.pub(d)))
+
+    def certificate_verify(self, priv, over=None, garbage=None):
+        if garbage is not None:
+            sig = garbage
+        else:
+            msg = self.hs if over is None else over
+            e = H(R.compute_z(R.pub(priv), R.DEFAULT_ID) + msg)
+            r, s = R.sign_with_k(priv, e, self.rng.randrange(1, R.N))
+            sig = R.sig_der(r, s)
+        return hs_msg(15, struct.pack('>H', len(sig)) + sig)
